@@ -357,4 +357,274 @@ theorem rsp_decode_writeMultipleRegisters (a q : UInt16) :
   have hf : FunctionCode.new 0x10 = .writeMultipleRegisters := rfl
   simp [Response.decode, Response.image, idx, hf, minResponsePduLen, h1, h3]
 
+/-! ### a lone frame with an unknown function code is never reported -/
+
+/-- the scan loop on a buffer of at most `MAX_FRAME_LEN` bytes all of whose remaining attempts are
+    'incomplete' or an error: every error is followed by a retry one byte later, until the buffer is
+    exhausted — the answer is 'incomplete' -/
+theorem scanFrom_none {F : Type} (att : Attempt F) (buf : Bytes) (hl : buf.length ≤ maxFrameLen) :
+    ∀ (n d0 : Nat), buf.length - d0 = n →
+      (∀ d, d0 ≤ d → d + 1 < buf.length → att (buf.drop d) = .ok none ∨ ∃ e, att (buf.drop d) = .err e) →
+      scanFrom att buf d0 = .ok none := by
+  intro n
+  induction n with
+  | zero =>
+    intro d0 hn _
+    rw [scanFrom]
+    have : d0 + 1 ≥ buf.length := by omega
+    simp only [this, dite_true]
+  | succ n ih =>
+    intro d0 hn h
+    rw [scanFrom]
+    by_cases hd : d0 + 1 ≥ buf.length
+    · simp only [hd, dite_true]
+    · simp only [hd, dite_false]
+      rcases h d0 (Nat.le_refl _) (by omega) with h1 | ⟨e, h1⟩
+      · rw [h1]
+      · rw [h1]
+        have hm : ¬ (d0 + 1 ≥ maxFrameLen) := by omega
+        simp only [hm, if_false]
+        exact ih (d0 + 1) (by omega) (fun d hd' hlt => h d (by omega) hlt)
+
+/-- bounds of the response table's entries: no response PDU is shorter than two bytes -/
+def RspRuleGe2 : Spec.LenRule → Prop
+  | .fixed n => 2 ≤ n
+  | .count1 base _ => 2 ≤ base
+  | .count2 base _ => 2 ≤ base
+  | .unknown => True
+
+instance : DecidablePred RspRuleGe2 := fun r => by
+  cases r <;> unfold RspRuleGe2 <;> infer_instance
+
+theorem rsp_rule_ge2 (fc : UInt8) : RspRuleGe2 (Spec.lenRule .rsp fc.toNat) := by
+  revert fc; apply byte_cases; decide +kernel
+
+theorem predict_rsp_ge2 (hdr : Nat) (b : Bytes) (n : Nat) (h : Spec.predict hdr .rsp b = .len n) : 2 ≤ n := by
+  unfold Spec.predict at h
+  split at h
+  · cases h
+  · cases hfc : b[hdr]? with
+    | none => rw [hfc] at h; cases h
+    | some fc =>
+      rw [hfc] at h
+      simp only at h
+      have hb := rsp_rule_ge2 fc
+      cases hr : Spec.lenRule .rsp fc.toNat with
+      | fixed m => rw [hr] at h hb; simp only [RspRuleGe2] at h hb; cases h; omega
+      | unknown => rw [hr] at h; cases h
+      | count1 base off =>
+        rw [hr] at h hb; simp only [RspRuleGe2] at h hb
+        cases hc : b[hdr + off]? with
+        | none => rw [hc] at h; cases h
+        | some c => rw [hc] at h; simp only at h; cases h; omega
+      | count2 base off =>
+        rw [hr] at h hb; simp only [RspRuleGe2] at h hb
+        cases hc : b[hdr + off]? with
+        | none => rw [hc] at h; cases h
+        | some c =>
+          rw [hc] at h
+          cases hc2 : b[hdr + off + 1]? with
+          | none => rw [hc2] at h; cases h
+          | some c2 => rw [hc2] at h; simp only at h; cases h; omega
+
+theorem predict_reject {d : Spec.Dir} {b : Bytes} {c : UInt8} (h0 : b[0]? = some c)
+    (hu : Spec.lenRule d c.toNat = .unknown) : Spec.predict 0 d b = .reject := by
+  have hpos : ¬ b.length < 0 + 1 := by
+    cases b with
+    | nil => simp at h0
+    | cons _ _ => simp
+  unfold Spec.predict
+  rw [if_neg hpos]
+  simp only [h0, hu]
+
+/-- a TCP response attempt on at most eight bytes never finds a frame (the shortest is 7 + 2) -/
+theorem tcp_attemptRsp_short (p : Bytes) (hne : p ≠ []) (hl : p.length ≤ 8) :
+    Tcp.attemptRsp p = .ok none ∨ ∃ e, Tcp.attemptRsp p = .err e := by
+  unfold Tcp.attemptRsp mkAttempt
+  rw [tcp_responsePduLen_eq]
+  cases hp : Spec.predict 7 .rsp p with
+  | incomplete => left; rfl
+  | reject => right; exact ⟨_, rfl⟩
+  | len n =>
+    left
+    have h2 := predict_rsp_ge2 7 p n hp
+    have hb := (predict_len_bounds 7 .rsp p n hp).2
+    simp only [predRes, Res.bind'_ok, tcp_extractFrame_short p n hne hb (by omega), Res.map_ok]
+
+/-- an RTU response attempt on at most four bytes never finds a frame (the shortest is 3 + 2) -/
+theorem rtu_attemptRsp_short (p : Bytes) (hne : p ≠ []) (hl : p.length ≤ 4) :
+    Rtu.attemptRsp p = .ok none ∨ ∃ e, Rtu.attemptRsp p = .err e := by
+  unfold Rtu.attemptRsp mkAttempt
+  rw [rtu_responsePduLen_eq]
+  cases hp : Spec.predict 1 .rsp p with
+  | incomplete => left; rfl
+  | reject => right; exact ⟨_, rfl⟩
+  | len n =>
+    left
+    have h2 := predict_rsp_ge2 1 p n hp
+    have hb := (predict_len_bounds 1 .rsp p n hp).2
+    simp only [predRes, Res.bind'_ok, rtu_extractFrame_short p n hne hb (by omega), Res.map_ok]
+
+theorem drop_ne_nil {b : Bytes} {d : Nat} (h : d + 1 < b.length) : b.drop d ≠ [] := by
+  intro he
+  have := congrArg List.length he
+  simp at this; omega
+
+/-- TCP: a two-byte PDU whose function code the response table does not know, framed and standing
+    alone, is answered 'incomplete' by `tcp::decode` -/
+theorem tcp_decodeRsp_unknown (tid : UInt16) (uid : UInt8) (pdu : Bytes) (c : UInt8)
+    (hlen : pdu.length ≤ 2) (h0 : pdu[0]? = some c) (hu : Spec.lenRule .rsp c.toNat = .unknown) :
+    Tcp.decodeRsp (Spec.tcpFrame tid uid pdu) = .ok none := by
+  have hpos : 1 ≤ pdu.length := by
+    cases pdu with
+    | nil => simp at h0
+    | cons _ _ => simp
+  have hL := tcpFrame_length tid uid pdu
+  have hne : (Spec.tcpFrame tid uid pdu).isEmpty = false := by
+    have := append_ne_nil_of_pos (f := Spec.tcpFrame tid uid pdu) (by omega) []
+    simpa using this
+  -- the attempt at offset 0 is an error
+  have h1 : Tcp.attemptRsp (Spec.tcpFrame tid uid pdu) = .err (.fnCode ((Spec.tcpFrame tid uid pdu)[7]?.getD 0)) := by
+    unfold Tcp.attemptRsp mkAttempt
+    rw [tcp_responsePduLen_eq]
+    have e := tcpFrame_split tid uid pdu []
+    rw [List.append_nil] at e
+    have : Spec.predict 7 .rsp (Spec.tcpFrame tid uid pdu) = .reject := by
+      rw [e, predict_shift 7 .rsp _ _ rfl]
+      exact predict_reject (by simpa using h0) hu
+    rw [this]; rfl
+  unfold Tcp.decodeRsp scan
+  rw [hne]
+  simp only [Bool.false_eq_true, if_false]
+  rw [scanFrom]
+  have hd : ¬ (0 + 1 ≥ (Spec.tcpFrame tid uid pdu).length) := by omega
+  have hm : ¬ (0 + 1 ≥ maxFrameLen) := by unfold maxFrameLen; omega
+  simp only [hd, dite_false, List.drop_zero, h1, hm, if_false]
+  apply scanFrom_none _ _ (by unfold maxFrameLen; omega) _ _ rfl
+  intro d hd1 hlt
+  exact tcp_attemptRsp_short _ (drop_ne_nil hlt) (by rw [List.length_drop]; omega)
+
+/-- RTU: the same for `rtu::decode` -/
+theorem rtu_decodeRsp_unknown (slave : UInt8) (pdu : Bytes) (c : UInt8)
+    (hlen : pdu.length ≤ 2) (h0 : pdu[0]? = some c) (hu : Spec.lenRule .rsp c.toNat = .unknown) :
+    Rtu.decodeRsp (Spec.rtuFrame slave pdu) = .ok none := by
+  have hpos : 1 ≤ pdu.length := by
+    cases pdu with
+    | nil => simp at h0
+    | cons _ _ => simp
+  have hL := rtuFrame_length slave pdu
+  have hne : (Spec.rtuFrame slave pdu).isEmpty = false := rfl
+  have h1 : Rtu.attemptRsp (Spec.rtuFrame slave pdu) = .err (.fnCode ((Spec.rtuFrame slave pdu)[1]?.getD 0)) := by
+    unfold Rtu.attemptRsp mkAttempt
+    rw [rtu_responsePduLen_eq]
+    have e := rtuFrame_split slave pdu []
+    rw [List.append_nil] at e
+    have : Spec.predict 1 .rsp (Spec.rtuFrame slave pdu) = .reject := by
+      rw [e, predict_shift 1 .rsp _ _ rfl]
+      refine predict_reject (c := c) ?_ hu
+      rw [List.getElem?_append_left (by omega)]; exact h0
+    rw [this]; rfl
+  unfold Rtu.decodeRsp scan
+  rw [hne]
+  simp only [Bool.false_eq_true, if_false]
+  rw [scanFrom]
+  have hd : ¬ (0 + 1 ≥ (Spec.rtuFrame slave pdu).length) := by omega
+  have hm : ¬ (0 + 1 ≥ maxFrameLen) := by unfold maxFrameLen; omega
+  simp only [hd, dite_false, List.drop_zero, h1, hm, if_false]
+  apply scanFrom_none _ _ (by unfold maxFrameLen; omega) _ _ rfl
+  intro d hd1 hlt
+  exact rtu_attemptRsp_short _ (drop_ne_nil hlt) (by rw [List.length_drop]; omega)
+
+/-! ### kinds, first bytes -/
+
+/-- requests whose PDU is a function code and two 16-bit fields -/
+def _root_.Modbus.Request.FixedLayout : Request → Prop
+  | .readCoils _ _ | .readDiscreteInputs _ _ | .readHoldingRegisters _ _ | .readInputRegisters _ _
+  | .writeSingleCoil _ _ | .writeSingleRegister _ _ => True
+  | _ => False
+
+/-- responses whose PDU is a function code and two 16-bit fields -/
+def _root_.Modbus.Response.FixedLayout : Response → Prop
+  | .writeSingleRegister _ _ | .writeMultipleCoils _ _ | .writeMultipleRegisters _ _ => True
+  | _ => False
+
+theorem Request.FixedLayout.standard {r : Request} (h : r.FixedLayout) : r.Standard := by
+  cases r <;> first | trivial | exact absurd h (by simp [Request.FixedLayout])
+
+theorem Request.FixedLayout.encodable {r : Request} (h : r.FixedLayout) : r.Encodable := by
+  cases r <;> first | trivial | exact absurd h (by simp [Request.FixedLayout])
+
+theorem Request.FixedLayout.dataExact {r : Request} (h : r.FixedLayout) : r.DataExact := by
+  cases r <;> first | trivial | exact absurd h (by simp [Request.FixedLayout])
+
+theorem Response.FixedLayout.frameable {r : Response} (h : r.FixedLayout) : r.Frameable := by
+  cases r <;> first | trivial | exact absurd h (by simp [Response.FixedLayout])
+
+theorem Response.FixedLayout.encodable {r : Response} (h : r.FixedLayout) : r.Encodable := by
+  cases r <;> first | trivial | exact absurd h (by simp [Response.FixedLayout])
+
+/-- PDU-level round trip of the fixed-layout requests: every address, every 16-bit value, both coil states -/
+theorem req_decode_fixed (r : Request) (h : r.FixedLayout) : Request.decode r.image = .ok r := by
+  cases r with
+  | readCoils a q => exact req_decode_readCoils a q
+  | readDiscreteInputs a q => exact req_decode_readDiscreteInputs a q
+  | readHoldingRegisters a q => exact req_decode_readHoldingRegisters a q
+  | readInputRegisters a q => exact req_decode_readInputRegisters a q
+  | writeSingleCoil a c => exact req_decode_writeSingleCoil a c
+  | writeSingleRegister a w => exact req_decode_writeSingleRegister a w
+  | _ => exact absurd h (by simp [Request.FixedLayout])
+
+/-- PDU-level round trip of the fixed-layout responses -/
+theorem rsp_decode_fixed (r : Response) (h : r.FixedLayout) : Response.decode r.image = .ok r := by
+  cases r with
+  | writeSingleRegister a w => exact rsp_decode_writeSingleRegister a w
+  | writeMultipleCoils a q => exact rsp_decode_writeMultipleCoils a q
+  | writeMultipleRegisters a q => exact rsp_decode_writeMultipleRegisters a q
+  | _ => exact absurd h (by simp [Response.FixedLayout])
+
+theorem req_image_length_fixed (r : Request) (h : r.FixedLayout) : r.image.length = 5 := by
+  cases r <;> first | rfl | exact absurd h (by simp [Request.FixedLayout])
+
+theorem rsp_image_length_fixed (r : Response) (h : r.FixedLayout) : r.image.length = 5 := by
+  cases r <;> first | rfl | exact absurd h (by simp [Response.FixedLayout])
+
+/-- the first byte of a frameable response image is a function code below 0x80 -/
+theorem rsp_image_first_lt (r : Response) (hs : r.Frameable) : ∃ b, r.image[0]? = some b ∧ b < 0x80 := by
+  cases r with
+  | readCoils c => exact ⟨0x01, rfl, by decide⟩
+  | readDiscreteInputs c => exact ⟨0x02, rfl, by decide⟩
+  | readHoldingRegisters d => exact ⟨0x03, rfl, by decide⟩
+  | readInputRegisters d => exact ⟨0x04, rfl, by decide⟩
+  | readWriteMultipleRegisters d => exact ⟨0x17, rfl, by decide⟩
+  | writeSingleRegister a w => exact ⟨0x06, rfl, by decide⟩
+  | writeMultipleCoils a q => exact ⟨0x0F, rfl, by decide⟩
+  | writeMultipleRegisters a q => exact ⟨0x10, rfl, by decide⟩
+  | readExceptionStatus s => exact ⟨0x07, rfl, by decide⟩
+  | _ => exact absurd hs (by simp [Response.Frameable])
+
+/-- the standard request kinds serial-line framing handles today: all but 0x0F / 0x10 (open finding D4) -/
+def _root_.Modbus.Request.RtuFrameable : Request → Prop
+  | .readCoils _ _ | .readDiscreteInputs _ _ | .readHoldingRegisters _ _ | .readInputRegisters _ _
+  | .writeSingleCoil _ _ | .writeSingleRegister _ _ | .readWriteMultipleRegisters _ _ _ _ => True
+  | _ => False
+
+theorem Request.RtuFrameable.standard {r : Request} (h : r.RtuFrameable) : r.Standard := by
+  cases r <;> first | trivial | exact absurd h (by simp [Request.RtuFrameable])
+
+theorem req_image_first_ne (r : Request) (h : r.RtuFrameable) :
+    r.image[0]? ≠ some 0x0F ∧ r.image[0]? ≠ some 0x10 := by
+  cases r with
+  | readCoils a q => exact ⟨by simp [Request.image], by simp [Request.image]⟩
+  | readDiscreteInputs a q => exact ⟨by simp [Request.image], by simp [Request.image]⟩
+  | readHoldingRegisters a q => exact ⟨by simp [Request.image], by simp [Request.image]⟩
+  | readInputRegisters a q => exact ⟨by simp [Request.image], by simp [Request.image]⟩
+  | writeSingleCoil a c => exact ⟨by simp [Request.image], by simp [Request.image]⟩
+  | writeSingleRegister a w => exact ⟨by simp [Request.image], by simp [Request.image]⟩
+  | readWriteMultipleRegisters ra rq wa d => exact ⟨by simp [Request.image], by simp [Request.image]⟩
+  | _ => exact absurd h (by simp [Request.RtuFrameable])
+
+/-- `FunctionCode::new` keeps the byte -/
+theorem value_new (f : UInt8) : (FunctionCode.new f).value = f := by
+  revert f; apply byte_cases; decide +kernel
+
 end Modbus.AduRT
